@@ -73,7 +73,9 @@ def balances(topo, nxt, getv):
 
 
 def work(item):
-    tj, style, seed, timeout_ms, engines, direct = item
+    tj, style, seed, timeout_ms, engines, direct = item[:6]
+    hist = item[6] if len(item) > 6 else "fresh"
+    builder = netcheck.history_builders()[hist]
     topo = T_.Topo.from_json(tj)
     rng = random.Random(seed)
     acc = netcheck.Acc(topo.name)
@@ -82,11 +84,11 @@ def work(item):
     encs = []
     try:
         if "numpy" in engines:
-            encs += netcheck.numpy_encodings(topo, style, None, D)
+            encs += netcheck.numpy_encodings(topo, style, None, D, builder=builder)
         numeric = netcheck.casadi_numeric_for(topo)
         for st in ("SX", "MX"):
             if st in engines:
-                e = netcheck.casadi_encoding(topo, st, numeric)
+                e = netcheck.casadi_encoding(topo, st, numeric, builder=builder)
                 e.extra["numeric"] = numeric
                 encs.append(e)
     except (symx.UnsupportedOp, symx.Inconclusive) as e:
@@ -240,7 +242,12 @@ def main():
         if args.only and args.only not in t.name:
             continue
         items.append((t.to_json(), ("array", "scalar")[k % 2], args.seed + k, timeout, ("numpy", "SX", "MX"),
-                      args.thorough and t.name.startswith("k")))
+                      args.thorough and t.name.startswith("k"), "fresh"))
+        if t.name.startswith("k"):
+            # the same balance on networks that were read / stepped / had elements replaced before (every step conserves vehicles)
+            hs = ["reads-interleaved", "decoy-links-replaced", "decoy-attachments-replaced"]
+            for h in (hs if args.thorough else [hs[k % 3]]):
+                items.append((t.to_json(), ("array", "scalar")[(k + 1) % 2], args.seed + k, timeout, ("numpy", "SX"), False, h))
     results = harness.pmap(work, items, args.serial)
     viol, inc, tot, levels, samples, st, _ = netcheck.summarize(results)
     cov = netcheck.base_coverage(
